@@ -188,6 +188,25 @@ def run_case(ctx, kind_, idx):
                     arr = np.zeros((2, 5))
                 info["shape"] = list(arr.shape)
                 call = lambda: Weaver.from_2d_array(arr)
+                if rng.integers(0, 3) == 0:
+                    # the same table read from a file: one, three or four columns (timestamp, inbound, outbound), with an
+                    # even or an odd number of rows
+                    import os
+                    import tempfile
+                    ncol = int(rng.choice([1, 3, 4]))
+                    rows = len(x) - int(rng.integers(0, 2))
+                    table = np.column_stack([np.asarray(x, dtype=float)[:rows]] + [np.asarray(y, dtype=float)[:rows]] * (ncol - 1))
+                    fd, path = tempfile.mkstemp(prefix="twverif-c20-", suffix=".csv")
+                    os.close(fd)
+                    np.savetxt(path, table, delimiter=",")
+                    info["shape"] = [rows, ncol]
+                    info["from_csv"] = True
+
+                    def call(path=path):
+                        try:
+                            return Weaver.from_csv(path)
+                        finally:
+                            os.unlink(path)
             elif c == "n_below_2_strategy":
                 strat = R.ALL[int(rng.integers(0, 6))]
                 bad = [1, 0, -3, 1.5][int(rng.integers(0, 4))]
